@@ -75,7 +75,7 @@ fn main() {
             let mut feat: BTreeMap<&str, u64> = BTreeMap::new();
             for gi in 0..ngram {
                 let cfg = GenCfg { extras: EXTRAS, guarded: true, stack_ops: gi % 3 != 0, tags: EXTRAS && gi % 4 == 1, max_rules: 5, max_depth: if thorough { 5 } else { 4 }, builtin_names: true, tag_shapes: TAG_SHAPES };
-                let rules = if gi < 48 { gen_grammar_idiom(&mut rng, &cfg, gi) } else { gen_grammar(&mut rng, &cfg) };
+                let rules = if gi < 60 { gen_grammar_idiom(&mut rng, &cfg, gi) } else { gen_grammar(&mut rng, &cfg) };
                 let srules = show_rules(&rules);
                 for (k, pat) in [("whitespace", "WHITESPACE"), ("comment", "COMMENT"), ("push", "(push "), ("pop", "(id POP"), ("peek_slice", "(peek "), ("neg", "(neg "), ("pos", "(pos "), ("rep", "(rep "), ("atomic_rule", " a ("), ("compound_rule", " c ("), ("nonatomic_rule", " x ("), ("silent_rule", " s ("), ("skip_idiom", "(rep (seq (neg "), ("bounded_rep", "(repm"), ("tag", "(tag "), ("user_builtin_name", "(rule ASCII"), ("insens", "(ins ")] { if srules.contains(pat) { *feat.entry(k).or_default() += 1; } }
                 let alpha = alphabet(&rules);
